@@ -364,6 +364,8 @@ class Ctx:
             return False
         if self.pos < len(self.trail):
             d = self.trail[self.pos]
+            # a model cached earlier on this path (e.g. by a soft violation during replay) need not satisfy this constraint
+            self.model = None
             self._push(c if d else z3.Not(c))
             return bool(d)
         self._limit()
@@ -402,6 +404,7 @@ class Ctx:
             return t.as_long()
         if self.pos < len(self.trail):
             v = self.trail[self.pos]
+            self.model = None
             self._push(t == v)
             return v
         self._limit()
